@@ -67,6 +67,10 @@ type taintInfo struct {
 	arith  bool
 }
 
+// intSize is the size in bytes of int/uint/uintptr on the platform the
+// repository was loaded for (4 when loaded with GOARCH=386).
+var intSize int64 = 8
+
 func computeTaint(fn *ssa.Function, d *decoderSet, sizeF *types.Var) map[ssa.Value]taintInfo {
 	t := map[ssa.Value]taintInfo{}
 	isSigned := func(ty types.Type) bool {
@@ -85,6 +89,8 @@ func computeTaint(fn *ssa.Function, d *decoderSet, sizeF *types.Var) map[ssa.Val
 			return 2
 		case types.Int32, types.Uint32:
 			return 4
+		case types.Int, types.Uint, types.Uintptr:
+			return intSize
 		}
 		return 8
 	}
@@ -522,6 +528,13 @@ func ruleParserShapes(c *core.Ctx) {
 // the "negative length panics" class is reported (used by C12: a panic in a
 // decoder takes the whole server down).
 func wireIntegerSinks(c *core.Ctx, d *decoderSet, ruleAlloc, ruleLoop string, negOnly bool) (int, int) {
+	intSize = 8
+	for _, p := range c.Pkgs {
+		if p.TypesSizes != nil {
+			intSize = p.TypesSizes.Sizeof(types.Typ[types.Int])
+			break
+		}
+	}
 	sizeF := c.Field("bus/net", "Header", "Size")
 	cs := &consume{d: d, memo: map[*ssa.Function]int{}}
 	nSinks, nLoops := 0, 0
